@@ -80,7 +80,7 @@ func H_C08_replacer() {
 		longest = max(longest, len(pairs[k]))
 	}
 	// inputs long enough to contain the longest key
-	n := 1 + symx.Choose(max(tier(3, 4), min(longest, tier(4, 5))))
+	n := 1 + symx.Choose(max(3, min(longest, tier(4, 5))))
 	s := symx.String("s", n)
 	// bytes of interest: the key alphabet plus "anything else"
 	r := _makeGenericReplacer(pairs)
